@@ -848,8 +848,7 @@ class Task:
                 raise RuntimeError(f"{self.id} exists in {v.id} predecessors. Cyclic dependency")
 
         for v in self.__predecessors:
-            if self in v.__successors:
-                v.__successors.remove(self)
+            v.__successors = [t for t in v.__successors if t is not self]
 
         self.__predecessors = [v for v in value]
 
@@ -895,8 +894,7 @@ class Task:
                 raise RuntimeError(f"{self.id} exists in {v.id} successors. Cyclic dependency")
 
         for v in self.__successors:
-            if self in v.__predecessors:
-                v.__predecessors.remove(self)
+            v.__predecessors = [t for t in v.__predecessors if t is not self]
 
         self.__successors = [v for v in value]
 
